@@ -330,8 +330,14 @@ def check_C11(tier):
     env = Env()
     conf = extract_conf(env)
     env.run('probe_routing.py', [conf])
-    calls = K.spec_to_code(rep, env, conf, 'MC_Search', 'MC_Search_finders_%s.cfg' % tier,
+    calls = K.spec_to_code(rep, env, conf, 'MC_Search', 'MC_Search_finders_%s.cfg' % ('quick' if tier == 'c20' else tier),
                            'C11 family: searches x store universes; FindersAgree and JunkChangesNothing on the model')
+    if tier == 'c20':
+        # under a generated configuration (quick tier of C20): the searches with several '*' levels next to a literal
+        # (where a path pattern can over-match) and a seeded sample of the others run on the real finders
+        multi = [c for c in calls if sum(1 for sg in c['search']['segs'] if sg == ['*']) >= 2]
+        rest = [c for c in calls if c not in multi]
+        calls = multi + random.Random(SEED + 11).sample(rest, min(len(rest), 150))
     uni = _universes(env, conf)
     calls.sort(key=lambda c: c['univ'])
     K.code_to_spec(rep, env, conf, calls, 'every search through FindInList / FindInPaths(local, server) / FindInAll on materialised trees, clean and with junk',
@@ -381,6 +387,23 @@ def check_C12(tier):
     calls2.sort(key=lambda c: c['univ'])
     K.code_to_spec(rep, env, conf, calls2, 'exists / find_one / as_sid=False against find, on four Finders',
                    tag='finders12', extra={'SPIL_UNIVERSES': uni, 'SPIL_CONF_JSON': conf}, envs=store_envs(8, env), per=40, chunk=2000)
+    # histories: exists() of every Sid of the write alphabet (incl. a constant-backed state) asked BEFORE and after the
+    # entities are created - a sample of the Writer behaviours of StoreDyn.tla; C12 owns the 'exists' clause of the reads
+    if not Report.redirect:
+        r = mc('StoreDyn', 'StoreDyn_quick.cfg', conf, dump=True)
+        rep.add_tlc(r, 'Writer behaviours of StoreDyn_quick.cfg (reads after creates)')
+        K.tlc_ok(r, 'StoreDyn')
+        hists = calls_from_dump(r.dumpfile, var='hist')
+        depth = max(len(h) for h in hists)
+        ex = [h for h in hists if len(h) == depth and any(st['op'] == 'create' for st in h)]
+        behaviours = random.Random(SEED + 12).sample(ex, min(len(ex), 80 if tier == 'quick' else 1500))
+        alphabet = sorted({tuple(st['segs']) for h in behaviours for st in h})
+        dyn = [dict(id=i, steps=h, alphabet=[list(a) for a in alphabet]) for i, h in enumerate(behaviours)]
+        n0 = len(rep.items)
+        K.code_to_spec(rep, env, conf, dyn, 'exists() of the whole alphabet before and after every create / update, replayed on a scratch tree',
+                       module='StoreTrace', script='run_store_dyn.py', tag='dyn12', extra={'SPIL_CONF_JSON': conf},
+                       envs=store_envs(8, env), per=10, chunk=3000, split_on='"dynreset"')
+        rep.items = rep.items[:n0] + [it for it in rep.items[n0:] if 'exists' in it['clauses'] or 'harness' in it['clauses']]
     rep.exhaustive = True
     rep.guard(any(t.startswith('sidreads:exists') for t in rep.cover) and any(t.startswith('sidreads:missing') for t in rep.cover) or not calls,
               'existing and missing Sids not both exercised')
@@ -664,9 +687,9 @@ def check_C20(tier):
     rep = Report('C20', tier)
     variants = ['all_changes'] if tier == 'quick' else ['rename_keys', 'rename_types', 'separators', 'insert_level', 'leaf_extrapolation', 'third_path_config', 'renamed_everything', 'all_changes']
     subs = [('C01', K.check_C01, 'quick'), ('C02', check_C02, 'quick'), ('C04', check_C04, 'quick'), ('C05', check_C05, 'quick'),
-            ('C06', check_C06, 'quick'), ('C07', check_C07, 'c20'), ('C08', check_C08, 'c20')]
+            ('C06', check_C06, 'quick'), ('C07', check_C07, 'c20'), ('C08', check_C08, 'c20'), ('C11', check_C11, 'c20')]
     if tier == 'thorough':
-        subs = [(a, b, 'quick') for a, b, _ in subs] + [('C03', check_C03, 'quick'), ('C11', check_C11, 'quick')]
+        subs = [(a, b, 'quick') for a, b, _ in subs if a != 'C11'] + [('C03', check_C03, 'quick'), ('C11', check_C11, 'quick')]
     Report.redirect = rep
     try:
         for v in variants:
